@@ -263,3 +263,178 @@ Proof.
   destruct ((prevlen =? 0) && (start =? (if rtl then 0 else tlen e))); [exact H|].
   apply scank_scan. exact H.
 Qed.
+
+(* ------------------------------------------------------------------------------------------ *)
+(* B. the scan is leftmost (in scan order)                                                     *)
+
+(* the i-th position of a scan that starts at p *)
+Definition scan_pos (rtl : bool) (p i : Z) : Z := if rtl then p - i else p + i.
+(* position q is at (or beyond) the far end of the text in scan direction *)
+Definition scan_far (e : env) (rtl : bool) (q : Z) : bool := if rtl then q <=? 0 else tlen e <=? q.
+(* the first candidate position of [find] *)
+Definition first_cand (rtl : bool) (start prevlen : Z) : Z :=
+  if prevlen =? 0 then (if rtl then start - 1 else start + 1) else start.
+
+Lemma spec_scan_pos_step rtl p i :
+  scan_pos rtl (if rtl then p - 1 else p + 1) (i - 1) = scan_pos rtl p i.
+Proof. unfold scan_pos. destruct rtl; lia. Qed.
+
+Lemma spec_scan_from_some e fuel root rtl : forall n p s,
+  scan_from e fuel n root rtl p = Ok (Some s) ->
+  exists j, 0 <= j < Z.of_nat n /\
+    attempt e fuel root (scan_pos rtl p j) = Ok (Some s) /\
+    forall i, 0 <= i < j ->
+      attempt e fuel root (scan_pos rtl p i) = Ok None /\ scan_far e rtl (scan_pos rtl p i) = false.
+Proof.
+  induction n as [|n IH]; intros p s H.
+  - discriminate H.
+  - cbn [scan_from] in H. apply sp_bind_ok in H. destruct H as [a [Ha H]].
+    assert (Hp0 : scan_pos rtl p 0 = p) by (unfold scan_pos; destruct rtl; lia).
+    destruct a as [s0|].
+    + injection H as H. subst s0. exists 0. split; [lia|]. split.
+      * rewrite Hp0. exact Ha.
+      * intros i Hi. lia.
+    + change (if rtl then p <=? 0 else tlen e <=? p) with (scan_far e rtl p) in H.
+      destruct (scan_far e rtl p) eqn:Efar; [discriminate H|].
+      apply IH in H. destruct H as [j [Hj [Hat Hbefore]]].
+      exists (j + 1). split; [lia|]. split.
+      * rewrite <- spec_scan_pos_step. replace (j + 1 - 1) with j by lia. exact Hat.
+      * intros i Hi. destruct (Z.eq_dec i 0) as [Ei|Ei].
+        -- subst i. rewrite Hp0. split; [exact Ha|exact Efar].
+        -- rewrite <- spec_scan_pos_step. apply Hbefore. lia.
+Qed.
+
+Lemma spec_scan_from_none e fuel root rtl : forall n p,
+  scan_from e fuel n root rtl p = Ok None ->
+  forall i, 0 <= i < Z.of_nat n ->
+    (i = 0 \/ if rtl then 0 <= p - i else p + i <= tlen e) ->
+    attempt e fuel root (scan_pos rtl p i) = Ok None.
+Proof.
+  induction n as [|n IH]; intros p H i Hi Hr.
+  - lia.
+  - cbn [scan_from] in H. apply sp_bind_ok in H. destruct H as [a [Ha H]].
+    assert (Hp0 : scan_pos rtl p 0 = p) by (unfold scan_pos; destruct rtl; lia).
+    destruct a as [s0|]; [discriminate H|].
+    destruct (Z.eq_dec i 0) as [Ei|Ei].
+    + subst i. rewrite Hp0. exact Ha.
+    + destruct Hr as [Hr|Hr]; [contradiction|].
+      destruct (if rtl then p <=? 0 else tlen e <=? p) eqn:Efar.
+      * exfalso. destruct rtl; lia.
+      * rewrite <- spec_scan_pos_step. apply (IH _ H); [lia|].
+        right. destruct rtl; lia.
+Qed.
+
+(* converse of spec_scan_from_some: the scan does find the first successful candidate *)
+Lemma spec_scan_from_complete e fuel root rtl : forall n p s j,
+  0 <= j < Z.of_nat n ->
+  attempt e fuel root (scan_pos rtl p j) = Ok (Some s) ->
+  (forall i, 0 <= i < j ->
+     attempt e fuel root (scan_pos rtl p i) = Ok None /\ scan_far e rtl (scan_pos rtl p i) = false) ->
+  scan_from e fuel n root rtl p = Ok (Some s).
+Proof.
+  induction n as [|n IH]; intros p s j Hj Hat Hbefore.
+  - lia.
+  - cbn [scan_from].
+    assert (Hp0 : scan_pos rtl p 0 = p) by (unfold scan_pos; destruct rtl; lia).
+    destruct (Z.eq_dec j 0) as [Ej|Ej].
+    + subst j. rewrite Hp0 in Hat. rewrite Hat. reflexivity.
+    + destruct (Hbefore 0 ltac:(lia)) as [H0 Hf0]. rewrite Hp0 in H0, Hf0.
+      rewrite H0. cbn [bind].
+      change (if rtl then p <=? 0 else tlen e <=? p) with (scan_far e rtl p). rewrite Hf0.
+      apply (IH _ s (j - 1)); [lia| |].
+      * rewrite spec_scan_pos_step. exact Hat.
+      * intros i Hi. pose proof (spec_scan_pos_step rtl p (i + 1)) as E.
+        replace (i + 1 - 1) with i in E by lia. rewrite E.
+        apply Hbefore. lia.
+Qed.
+
+(* [find] has no candidate at all exactly when the previous match was empty and ended at the far end *)
+Lemma spec_find_no_candidate e fuel root (rtl : bool) (start prevlen : Z) :
+  prevlen = 0 -> start = (if rtl then 0 else tlen e) ->
+  find e fuel root rtl start prevlen = Ok None.
+Proof.
+  intros Hp Hs. unfold find. subst prevlen. rewrite Hs.
+  rewrite !Z.eqb_refl. reflexivity.
+Qed.
+
+(* a match: it is the result of [attempt] at a candidate p, and every candidate strictly before p
+   in scan order failed *)
+Theorem spec_find_leftmost_some e fuel root (rtl : bool) (start prevlen : Z) s :
+  find e fuel root rtl start prevlen = Ok (Some s) ->
+  let p0 := first_cand rtl start prevlen in
+  ~ (prevlen = 0 /\ start = (if rtl then 0 else tlen e)) /\
+  exists p,
+    (if rtl then p <= p0 /\ (p = p0 \/ 0 <= p) else p0 <= p /\ (p = p0 \/ p <= tlen e)) /\
+    attempt e fuel root p = Ok (Some s) /\
+    forall q, (if rtl then p < q <= p0 else p0 <= q < p) -> attempt e fuel root q = Ok None.
+Proof.
+  intros H p0. unfold find in H.
+  destruct ((prevlen =? 0) && (start =? (if rtl then 0 else tlen e))) eqn:Enc; [discriminate H|].
+  split.
+  { intros [Hp Hs]. rewrite Hp, Hs, !Z.eqb_refl in Enc. discriminate Enc. }
+  fold (first_cand rtl start prevlen) in H. fold p0 in H.
+  apply spec_scan_from_some in H. destruct H as [j [Hj [Hat Hbefore]]].
+  exists (scan_pos rtl p0 j). split; [|split].
+  - destruct (Z.eq_dec j 0) as [Ej|Ej].
+    + subst j. unfold scan_pos. destruct rtl; lia.
+    + destruct (Hbefore (j - 1) ltac:(lia)) as [_ Hfar].
+      unfold scan_far, scan_pos in *. destruct rtl; lia.
+  - exact Hat.
+  - intros q Hq.
+    assert (Hq' : exists i, 0 <= i < j /\ q = scan_pos rtl p0 i).
+    { unfold scan_pos in *. destruct rtl.
+      - exists (p0 - q). lia.
+      - exists (q - p0). lia. }
+    destruct Hq' as [i [Hi Hqi]]. subst q. apply (Hbefore i Hi).
+Qed.
+
+(* no match: every candidate from the first one to the far end failed *)
+Theorem spec_find_leftmost_none e fuel root (rtl : bool) (start prevlen : Z) :
+  0 <= start <= tlen e ->
+  find e fuel root rtl start prevlen = Ok None ->
+  let p0 := first_cand rtl start prevlen in
+  forall q, (if rtl then 0 <= q <= p0 else p0 <= q <= tlen e) -> attempt e fuel root q = Ok None.
+Proof.
+  intros Hst H p0 q Hq. unfold find in H.
+  destruct ((prevlen =? 0) && (start =? (if rtl then 0 else tlen e))) eqn:Enc.
+  { exfalso. apply andb_prop in Enc. destruct Enc as [E1 E2].
+    unfold p0, first_cand in Hq. rewrite E1 in Hq. destruct rtl; lia. }
+  fold (first_cand rtl start prevlen) in H. fold p0 in H.
+  assert (Hp0 : if rtl then p0 <= tlen e else 0 <= p0).
+  { unfold p0, first_cand. destruct rtl, (prevlen =? 0); lia. }
+  assert (Hlen : 0 <= tlen e) by (unfold tlen, zlen; lia).
+  assert (Hq' : exists i, 0 <= i < Z.of_nat (S (Z.to_nat (tlen e))) /\ q = scan_pos rtl p0 i /\
+                          (if rtl then 0 <= p0 - i else p0 + i <= tlen e)).
+  { unfold scan_pos. destruct rtl.
+    - exists (p0 - q). lia.
+    - exists (q - p0). lia. }
+  destruct Hq' as [i [Hi [Hqi Hr]]]. subst q.
+  apply (spec_scan_from_none e fuel root rtl _ p0 H i Hi). right. exact Hr.
+Qed.
+
+(* and conversely: the first successful candidate IS what find returns *)
+Theorem spec_find_complete e fuel root (rtl : bool) (start prevlen : Z) s (p : Z) :
+  0 <= start <= tlen e ->
+  ~ (prevlen = 0 /\ start = (if rtl then 0 else tlen e)) ->
+  let p0 := first_cand rtl start prevlen in
+  (if rtl then 0 <= p <= p0 else p0 <= p <= tlen e) ->
+  attempt e fuel root p = Ok (Some s) ->
+  (forall q, (if rtl then p < q <= p0 else p0 <= q < p) -> attempt e fuel root q = Ok None) ->
+  find e fuel root rtl start prevlen = Ok (Some s).
+Proof.
+  intros Hst Hnc p0 Hp Hat Hbefore. unfold find.
+  destruct ((prevlen =? 0) && (start =? (if rtl then 0 else tlen e))) eqn:Enc.
+  { exfalso. apply Hnc. apply andb_prop in Enc. destruct Enc as [E1 E2]. split; lia. }
+  fold (first_cand rtl start prevlen). fold p0.
+  assert (Hlen : 0 <= tlen e) by (unfold tlen, zlen; lia).
+  assert (Hp0 : if rtl then p0 <= tlen e else 0 <= p0).
+  { unfold p0, first_cand. destruct rtl, (prevlen =? 0); lia. }
+  apply (spec_scan_from_complete e fuel root rtl _ p0 s (if rtl then p0 - p else p - p0)).
+  - destruct rtl; lia.
+  - replace (scan_pos rtl p0 (if rtl then p0 - p else p - p0)) with p
+      by (unfold scan_pos; destruct rtl; lia).
+    exact Hat.
+  - intros i Hi. split.
+    + apply Hbefore. unfold scan_pos. destruct rtl; lia.
+    + unfold scan_far, scan_pos. destruct rtl; lia.
+Qed.
